@@ -12,37 +12,69 @@ U = ['src/bitint.c', 'src/scale.c', 'src/instant.c']
 FN = {1: 'rrul_fill_yly', 2: 'rrul_fill_mly', 3: 'rrul_fill_wly', 4: 'rrul_fill_dly', 5: 'rrul_fill_Hly', 6: 'rrul_fill_Mly', 7: 'rrul_fill_Sly'}
 FNAME = {1: 'yearly', 2: 'monthly', 3: 'weekly', 4: 'daily', 5: 'hourly', 6: 'minutely', 7: 'secondly'}
 
-def shape(freq, name, parts, B=6, K=2, extra=(), uw=None, **kw):
-    defs = ['FREQ=%d' % freq, 'NOCC=%d' % K, 'DENS=%d' % B] + ['%s=%d' % kv for kv in sorted(parts.items())] + list(extra)
-    nprod = max(1, parts.get('NH', 0)) * max(1, parts.get('NM', 0)) * max(1, parts.get('NS', 0))
+def shape(freq, name, parts, B=3, K=2, inter=1, cand=2, extra=(), uw=None, **kw):
+    """cand: the most candidates one period can hold for this shape (bounds the list-form insertion loops)"""
+    defs = ['FREQ=%d' % freq, 'NOCC=%d' % K, 'DENS=%d' % B, 'INTER=%d' % inter, 'ECHSE_VERIF_CCH=4U'] + \
+        ['%s=%d' % kv for kv in sorted(parts.items())] + list(extra)
     unwindset = {
         'bui31_next.*': 33, 'bi31_next.*': 34, 'bui63_next.*': 65, 'bi63_next.*': 66,
         # candidate sets stay in list form (<= 12 entries): bitset-form loops are proved unreachable with bound 1
-        'bi383_next.*': 1, 'ass_bi383.*': 1, 'ass_int383.*': 13, 'bi447_next.*': 1, 'ass_bi447.*': 1, 'ass_int447.*': 5,
-        'memcpy.*': 73, 'memmove.*': 13, 'memset.*': 25, 'make_enum.*': 4,
-        'orc_in.*': 5, 'orc_member.*': 5, 'harness.*': 66, 'sym_load.*': 6, 'clr_poss.*': 2, 'shift.*': 2, 'mjd2ht.*': 2,
+        'bi383_next.*': 1, 'ass_bi383.*': 1, 'ass_int383.*': cand + 1, 'bi447_next.*': 1, 'ass_bi447.*': 1, 'ass_int447.*': 5,
+        'memcpy.*': 73, 'memmove.*': cand + 1, 'memset.*': 25, 'make_enum.*': 4,
+        'orc_in.*': 5, 'orc_member.*': 5, 'harness.*': 6, 'sym_load.*': 6, 'clr_poss.*': 2, 'shift.*': 2, 'mjd2ht.*': 2,
         'fill_mly_ymd.*': 4, 'fill_yly_ymd.*': 4, 'fill_mly_ymcw.*': 4, 'fill_yly_ymcw.*': 4, 'fill_yly_ycw.*': 4,
         'fill_yly_ywd.*': 4, 'fill_yly_yd.*': 4, 'fill_yly_eastr.*': 2,
         'fill_mly_ymd_all_d.*': 33, 'fill_yly_ymd_all_d.*': 4, 'fill_yly_ymd_all_m.*': 14, 'fill_yly_md_all.*': 33, 'fill_yly_yd_all.*': 368,
-        FN[freq] + '.*': B + 3,
+        FN[freq] + '.*': max(B + 3, 14),
     }
     unwindset.update(uw or {})
-    o = dict(name='%s_%s' % (FNAME[freq], name), src='h_rrul.c', defs=defs, units=U, incl=['src/evrrul.c'], replay_units='all',
-             unwind=4, unwindset=unwindset, solver='cadical', timeout=900, mem_gb=8,
+    o = dict(name='%s_%s_i%d' % (FNAME[freq], name, inter), src='h_rrul.c', defs=defs, units=U, incl=['src/evrrul.c'], replay_units='all',
+             unwind=4, unwindset=unwindset, solver='cadical', timeout=900, mem_gb=8, extra=['--max-field-sensitivity-array-size', '4'],
              checks=['--bounds-check', '--div-by-zero-check'],
              enc=[FN[freq], 'make_enum', 'fill_*', 'clr_poss', 'shift', 'ymcw_get_dom', 'ywd_to_md', 'yd_to_md', 'ycw_get_yday', 'bitint.h', 'bitint.c', 'echs_scale_ndim/wday'],
-             sym='DTSTART, INTERVAL, every BY-list value, COUNT/UNTIL, gap witness z, density witness w',
-             bounds='shape %s; K=%d occurrences; next occurrence within B=%d periods; INTERVAL 1..4' % (' '.join(defs[3:]) or 'no BY-part', K, B),
+             sym='DTSTART, every BY-list value, COUNT/UNTIL, gap witness z, density witness w',
+             bounds='shape %s; INTERVAL=%d; K=%d occurrences; next occurrence within B=%d periods' % (' '.join(defs[5:]) or 'no BY-part', inter, K, B),
              outside='longer BY-lists, K > 2, sparser rules (C09), cache refills (C16), text parsing (C05/C10)',
-             stubs=['word-wise memcpy/memmove/memset (harness/common/libc_models.h)'])
+             stubs=['word-wise memcpy/memmove/memset (harness/common/libc_models.h)', 'hook ECHSE_VERIF_CCH=4 (cache of 4 instead of 64)'])
     o.update(kw)
     return o
 
-OBLIGATIONS = [
-    shape(2, 'plain', {}),
-    shape(2, 'bymonthday1', {'NDOM': 1}),
-    shape(1, 'plain', {}),
-    shape(4, 'plain', {}),
-    shape(3, 'plain', {}),
-    shape(5, 'plain', {}),
-]
+Q = ('quick', 'thorough')
+T = ('thorough',)
+OBLIGATIONS = []
+def add(freq, name, parts, quick_inters=(1,), all_inters=(1, 2, 3), **kw):
+    for i in all_inters:
+        OBLIGATIONS.append(shape(freq, name, parts, inter=i, tiers=Q if i in quick_inters else T,
+                                 B=3 if i in quick_inters else 5, **kw))
+
+# --- no BY-part: pure period arithmetic, one per frequency
+for f in (1, 2, 3, 4, 5, 6, 7):
+    add(f, 'plain', {}, quick_inters=(2,) if f in (2, 4, 5) else (), cand=1)
+# --- monthly
+add(2, 'bymonthday1', {'NDOM': 1}, quick_inters=(1,), cand=1)
+add(2, 'bymonthday2', {'NDOM': 2}, quick_inters=(), cand=2)
+add(2, 'byday1', {'NDOW': 1}, quick_inters=(), cand=5, timeout=1500)
+add(2, 'bydayord1', {'NDOW': 1}, quick_inters=(1,), cand=1, extra=['DOW_ORD'])
+add(2, 'bymonth1', {'NMON': 1}, quick_inters=(), cand=1)
+add(2, 'byhour2', {'NH': 2}, quick_inters=(), cand=1)
+# --- yearly
+add(1, 'bymonth1', {'NMON': 1}, quick_inters=(1,), cand=1)
+add(1, 'bymonth1_bymonthday1', {'NMON': 1, 'NDOM': 1}, quick_inters=(), cand=1)
+add(1, 'bymonthday1', {'NDOM': 1}, quick_inters=(), cand=12, timeout=1500)
+add(1, 'byyearday1', {'NDOY': 1}, quick_inters=(1,), cand=1)
+add(1, 'bymonth1_bydayord1', {'NMON': 1, 'NDOW': 1}, quick_inters=(), cand=1, extra=['DOW_ORD'])
+add(1, 'bydayord1', {'NDOW': 1}, quick_inters=(), cand=1, extra=['DOW_ORD'])
+add(1, 'byweekno1_byday1', {'NWK': 1, 'NDOW': 1}, quick_inters=(), cand=1)
+# --- weekly / daily / hourly .. with limiting parts
+add(3, 'byday2', {'NDOW': 2}, quick_inters=(1,), cand=1)
+add(4, 'bymonth1', {'NMON': 1}, quick_inters=(), cand=1, all_inters=(1, 2))
+add(4, 'bymonthday1', {'NDOM': 1}, quick_inters=(), cand=1, all_inters=(1, 2))
+add(4, 'byhour2_byminute2', {'NH': 2, 'NM': 2}, quick_inters=(), cand=1, all_inters=(1,))
+add(5, 'byminute2', {'NM': 2}, quick_inters=(), cand=1, all_inters=(1, 2))
+add(6, 'bysecond2', {'NS': 2}, quick_inters=(), cand=1, all_inters=(1, 2))
+# --- COUNT and UNTIL
+OBLIGATIONS.append(shape(2, 'bymonthday1_count', {'NDOM': 1}, inter=1, extra=['WITH_COUNT'], tiers=Q, cand=1))
+OBLIGATIONS.append(shape(4, 'plain_until', {}, inter=1, extra=['WITH_UNTIL'], tiers=Q, cand=1))
+OBLIGATIONS.append(shape(1, 'bymonth1_until', {'NMON': 1}, inter=1, extra=['WITH_UNTIL'], tiers=T, cand=1))
+OBLIGATIONS.append(shape(3, 'plain_allday', {}, inter=1, extra=['ALLDAY'], tiers=T, cand=1))
+OBLIGATIONS.append(shape(2, 'bymonthday1_allday', {'NDOM': 1}, inter=1, extra=['ALLDAY'], tiers=T, cand=1))
